@@ -81,7 +81,7 @@ def replay(rp):
     return 1
 
 
-TECHNIQUE = "Coq theorems on the routing tables of defvjp/defjvp (all arities, all subsets, three code paths) + exact correspondence with generated logging primitives; checkpoint by exact comparison on the implementation; the routing model proved equal to what is translated from core.defvjp on every run (gen/GenExtend.v)"
+TECHNIQUE = "Coq theorems on the routing tables of defvjp/defjvp (all arities, all subsets, three code paths) + exact correspondence with generated logging primitives; checkpoint by exact comparison on the implementation; the routing model (both modes, and the space whose zero a None entry is) proved equal to what is translated from core.defvjp / defjvp / defjvp_argnum / def_linear / translate_vjp / translate_jvp on every run (gen/GenExtend.v)"
 DESIGN_REF = "DESIGN.md 4.17"
 LEVEL_TEXT = ("Proved: routing of every registration API for every arity and list of differentiated positions (rule / zeros / raise). "
               "Tied: what the rules are called with, two-level trace assignments, checkpoint transparency (implementation oracle).")
